@@ -164,6 +164,7 @@ func main() {
 		}
 		fatal(2, "harness error: /repo working tree changed during the check:\n%s", after)
 	}
+	coverWrite(p.id)
 	code := finish(p, *tier, seed, m, time.Since(start), *evdir, *replay != "")
 	if !*keep {
 		os.RemoveAll(scratch)
@@ -208,6 +209,9 @@ func buildTestBinary(scratch, pkg string, race bool) (string, error) {
 	if race {
 		out = filepath.Join(scratch, pkg+".race.test")
 		args = []string{"test", "-c", "-race", "-tags", "verif", "-overlay", ov, "-vet=off", "-o", out}
+	}
+	if !race {
+		args = append(args, coverBuildArgs()...)
 	}
 	args = append(args, "./"+pkgDirs[pkg])
 	cmd := exec.Command("go", args...)
@@ -285,8 +289,13 @@ func runShards(bin string, p *propInfo, tier string, seed int, scratch, replay s
 			wdir := filepath.Join(scratch, fmt.Sprintf("w%s%d", mode, i))
 			os.MkdirAll(wdir, 0o755)
 			outp := filepath.Join(scratch, fmt.Sprintf("res%s%d.json", mode, i))
-			cmd := exec.Command("timeout", "-k", "10", fmt.Sprint(int(to.Seconds())+30), bin,
-				"-test.run", "^TestVerifDriver$", "-test.count", "1", "-test.timeout", to.String())
+			var covArgs []string
+			covPath := ""
+			if mode != "race" {
+				covArgs, covPath = coverRunArg(scratch)
+			}
+			cmd := exec.Command("timeout", append([]string{"-k", "10", fmt.Sprint(int(to.Seconds()) + 30), bin,
+				"-test.run", "^TestVerifDriver$", "-test.count", "1", "-test.timeout", to.String()}, covArgs...)...)
 			// the working directory is deliberately much deeper than any test file's directory: a path that is
 			// relative to the test file and wrongly resolved against the working directory then lands somewhere else
 			cwd := filepath.Join(wdir, "cwd", "x", "y", "z")
@@ -321,6 +330,7 @@ func runShards(bin string, p *propInfo, tier string, seed int, scratch, replay s
 			}
 			cmd.Env = env
 			b, err := cmd.CombinedOutput()
+			coverMerge(covPath)
 			outs[i].stdout = string(b)
 			rb, rerr := os.ReadFile(outp)
 			if rerr != nil {
